@@ -1,7 +1,385 @@
 package main
 
-// Replay of solver counterexamples against the real code (go test -overlay). Filled in per function class.
+// Replay of solver counterexamples against the real code.
+//
+// A counter-model of a failed obligation is turned into concrete Go values (receiver fields, buffer contents, scalar
+// arguments), a test that calls the REAL function with them is injected with `go test -overlay` (nothing is written
+// into /repo), and the violation counts as replayed only if the real code misbehaves on that input: it panics (panic
+// obligations), or it breaks the Go-coded oracle of the harness (a few postconditions).  Functions without a harness,
+// and models the harness cannot realise (abstract reflect types, runtime maps, huge allocations), are reported with the
+// suffix no-failing-input-found; the replay file then carries the failed obligation and the solver's output only.
+
+import (
+	"encoding/json"
+	"fmt"
+	"os"
+	"os/exec"
+	"path/filepath"
+	"strconv"
+	"strings"
+)
+
+type replayHarness struct {
+	pkgDir string // directory of the package under /repo ("" = root)
+	pkg    string
+	// terms to evaluate in the model, by name
+	want func(e *Engine, o *Obligation) []namedTerm
+	// Go test source given the evaluated values; "" if the model cannot be realised
+	gen func(vals map[string]uint64, o *Obligation) string
+}
+
+type namedTerm struct {
+	name string
+	t    *Term
+}
+
+const replayBytes = 48 // buffer bytes materialised from the model
+
+func (e *Engine) inputTerm(o *Obligation, name string) *Term {
+	for _, l := range o.Inputs {
+		if l.Name == name {
+			return l.T
+		}
+	}
+	return nil
+}
+
+// readBufTerms: fields of a *ReadBuf parameter at function entry and the first bytes of its buffer.
+func (e *Engine) readBufTerms(o *Obligation, param string) []namedTerm {
+	tb := e.tb
+	p := e.inputTerm(o, param)
+	if p == nil {
+		return nil
+	}
+	h := func(f string, s *Sort) *Term { return tb.Var("H0:github.com/philpearl/avro.ReadBuf#"+f, s) }
+	base := tb.Select(h("buf.base", WordAr), p)
+	off := tb.Select(h("buf.off", WordAr), p)
+	ln := tb.Select(h("buf.len", WordAr), p)
+	out := []namedTerm{{"rb.i", tb.Select(h("i", WordAr), p)}, {"rb.len", ln}, {"rb.ptr", p}}
+	content := tb.Select(tb.Var("BH0", ObjAr), base)
+	for k := 0; k < replayBytes; k++ {
+		out = append(out, namedTerm{fmt.Sprintf("rb.b%d", k), tb.ZExt(tb.Select(content, tb.Add(off, tb.BVI(64, int64(k)))), 64)})
+	}
+	return out
+}
+
+func scalarTerms(e *Engine, o *Obligation, names ...string) []namedTerm {
+	var out []namedTerm
+	for _, n := range names {
+		if t := e.inputTerm(o, n); t != nil && t.Sort.Kind == SBV {
+			if t.Sort.W < 64 {
+				t = e.tb.ZExt(t, 64)
+			}
+			out = append(out, namedTerm{n, t})
+		}
+	}
+	return out
+}
+
+func goBuf(vals map[string]uint64) (string, bool) {
+	n := int64(vals["rb.len"])
+	if n < 0 || n > replayBytes {
+		return "", false // longer buffers than we materialise: not realisable here
+	}
+	var bs []string
+	for k := int64(0); k < n; k++ {
+		bs = append(bs, strconv.Itoa(int(vals[fmt.Sprintf("rb.b%d", k)]&0xff)))
+	}
+	return "[]byte{" + strings.Join(bs, ", ") + "}", true
+}
+
+const replayPrelude = `package %s
+
+import (
+	"fmt"
+	"testing"
+)
+
+var _ = fmt.Sprint
+
+func replayGuard(t *testing.T, what string, f func()) {
+	defer func() {
+		if x := recover(); x != nil {
+			t.Logf("REPLAY-CONFIRMED: %%s panicked: %%v", what, x)
+			t.Fail()
+		}
+	}()
+	f()
+}
+`
+
+// harness for methods of *ReadBuf taking at most one integer argument, and for skip(r, l)
+func readBufHarness(recv string, call string, args ...string) *replayHarness {
+	return &replayHarness{pkg: "avro",
+		want: func(e *Engine, o *Obligation) []namedTerm {
+			return append(e.readBufTerms(o, recv), scalarTerms(e, o, args...)...)
+		},
+		gen: func(vals map[string]uint64, o *Obligation) string {
+			buf, ok := goBuf(vals)
+			if !ok {
+				return ""
+			}
+			c := call
+			for _, a := range args {
+				c = strings.ReplaceAll(c, "$"+a, fmt.Sprintf("int64(%d)", int64(vals[a])))
+			}
+			return fmt.Sprintf(replayPrelude, "avro") + fmt.Sprintf(`
+func TestGovcReplay(t *testing.T) {
+	r := &ReadBuf{buf: %s, i: int(%d), rb: newResourceBank()}
+	n := len(r.buf)
+	replayGuard(t, %q, func() {
+		%s
+		if r.i < 0 || r.i > n {
+			t.Logf("REPLAY-CONFIRMED: read position %%d outside the buffer of %%d bytes", r.i, n)
+			t.Fail()
+		}
+	})
+}
+`, buf, int64(vals["rb.i"]), o.Func, c)
+		}}
+}
+
+// harness for Read/Skip of a codec value that can be written as a Go expression
+func codecHarness(expr string, size int) *replayHarness {
+	return &replayHarness{pkg: "avro",
+		want: func(e *Engine, o *Obligation) []namedTerm { return e.readBufTerms(o, "r") },
+		gen: func(vals map[string]uint64, o *Obligation) string {
+			buf, ok := goBuf(vals)
+			if !ok {
+				return ""
+			}
+			call := "_ = c.Skip(r)"
+			if strings.HasSuffix(o.Func, ".Read") || strings.Contains(o.Func, ".Read as ") {
+				call = fmt.Sprintf("var dst [%d]byte\n\t\t_ = c.Read(r, unsafe.Pointer(&dst))", size)
+			}
+			src := fmt.Sprintf(replayPrelude, "avro")
+			src = strings.Replace(src, "\"testing\"\n", "\"testing\"\n\t\"unsafe\"\n", 1)
+			return src + fmt.Sprintf(`
+var _ = unsafe.Pointer(nil)
+
+func TestGovcReplay(t *testing.T) {
+	r := &ReadBuf{buf: %s, i: int(%d), rb: newResourceBank()}
+	n := len(r.buf)
+	var c Codec = %s
+	replayGuard(t, %q, func() {
+		%s
+		if r.i < 0 || r.i > n {
+			t.Logf("REPLAY-CONFIRMED: read position %%d outside the buffer of %%d bytes", r.i, n)
+			t.Fail()
+		}
+	})
+}
+`, buf, int64(vals["rb.i"]), expr, o.Func, call)
+		}}
+}
+
+// harness for parseTime(in string): the oracle is the standard library on strings it accepts (C18) and no panic
+func parseTimeHarness() *replayHarness {
+	return &replayHarness{pkg: "time", pkgDir: "time",
+		want: func(e *Engine, o *Obligation) []namedTerm {
+			tb := e.tb
+			var base, off, ln *Term
+			for _, l := range o.Inputs {
+				switch l.Name {
+				case "in.base":
+					base = l.T
+				case "in.off":
+					off = l.T
+				case "in.len":
+					ln = l.T
+				}
+			}
+			if base == nil || off == nil || ln == nil {
+				return nil
+			}
+			out := []namedTerm{{"rb.len", ln}}
+			content := tb.Select(tb.Var("BH0", ObjAr), base)
+			for k := 0; k < replayBytes; k++ {
+				out = append(out, namedTerm{fmt.Sprintf("rb.b%d", k), tb.ZExt(tb.Select(content, tb.Add(off, tb.BVI(64, int64(k)))), 64)})
+			}
+			return out
+		},
+		gen: func(vals map[string]uint64, o *Obligation) string {
+			buf, ok := goBuf(vals)
+			if !ok {
+				return ""
+			}
+			return `package time
+
+import (
+	"testing"
+	stdtime "time"
+)
+
+func TestGovcReplay(t *testing.T) {
+	in := string(` + buf + `)
+	defer func() {
+		if x := recover(); x != nil {
+			t.Logf("REPLAY-CONFIRMED: parseTime(%q) panicked: %v", in, x)
+			t.Fail()
+		}
+	}()
+	got, err := parseTime(in)
+	want, werr := stdtime.Parse(stdtime.RFC3339Nano, in)
+	if werr != nil {
+		return // not a string the standard library accepts: only the no-panic part applies
+	}
+	_, wo := want.Zone()
+	_, gotOff := got.Zone()
+	if err != nil || !got.Equal(want) || gotOff != wo {
+		t.Logf("REPLAY-CONFIRMED: parseTime(%q) = %v, %v; time.Parse gives %v", in, got, err, want)
+		t.Fail()
+	}
+}
+`
+		}}
+}
+
+var replayHarnesses = map[string]*replayHarness{
+	"(*ReadBuf).Next":         readBufHarness("d", "_, _ = r.Next(int($l))", "l"),
+	"(*ReadBuf).NextAsString": readBufHarness("d", "_, _ = r.NextAsString(int($l))", "l"),
+	"(*ReadBuf).ReadByte":     readBufHarness("d", "_, _ = r.ReadByte()"),
+	"(*ReadBuf).Varint":       readBufHarness("d", "_, _ = r.Varint()"),
+	"(*ReadBuf).uvarint":      readBufHarness("d", "_, _ = r.uvarint()"),
+	"skip":                    readBufHarness("r", "_ = skip(r, $l)", "l"),
+	"(BytesCodec).Read":       codecHarness("BytesCodec{}", 24),
+	"(BytesCodec).Skip":       codecHarness("BytesCodec{}", 24),
+	"(StringCodec).Read":      codecHarness("StringCodec{}", 16),
+	"(StringCodec).Skip":      codecHarness("StringCodec{}", 16),
+	"(BoolCodec).Read":        codecHarness("BoolCodec{}", 8),
+	"(BoolCodec).Skip":        codecHarness("BoolCodec{}", 8),
+	"(IntCodec[int64]).Read":  codecHarness("Int64Codec{}", 8),
+	"(IntCodec[int32]).Read":  codecHarness("Int32Codec{}", 8),
+	"(IntCodec[int16]).Read":  codecHarness("Int16Codec{}", 8),
+	"(IntCodec[int64]).Skip":  codecHarness("Int64Codec{}", 8),
+	"parseTime":               parseTimeHarness(),
+}
+
+func harnessKey(fn string) string {
+	if i := strings.Index(fn, " as "); i >= 0 {
+		fn = fn[:i]
+	}
+	if i := strings.Index(fn, " [view"); i >= 0 {
+		fn = fn[:i]
+	}
+	return fn
+}
+
+// evalTerms asks a solver for the values of terms in a model of the failed obligation.
+func (e *Engine) evalTerms(o *Obligation, nts []namedTerm) (map[string]uint64, bool) {
+	var terms []*Term
+	for _, nt := range nts {
+		terms = append(terms, nt.t)
+	}
+	hyps := e.PrepareQF(o)
+	script := e.tb.Script(hyps, nil, true, false, terms...)
+	var keep []string
+	for _, l := range strings.Split(script, "\n") {
+		if strings.HasPrefix(l, "(assert (forall ((d (Array") {
+			continue
+		}
+		keep = append(keep, l)
+	}
+	dir, err := os.MkdirTemp("", "govc-replay")
+	if err != nil {
+		return nil, false
+	}
+	defer os.RemoveAll(dir)
+	f := filepath.Join(dir, "values.smt2")
+	os.WriteFile(f, []byte(strings.Join(keep, "\n")), 0o644)
+	out, _ := exec.Command("z3-new", "-smt2", "-T:30", f).CombinedOutput()
+	lines := strings.Split(string(out), "\n")
+	if len(lines) == 0 || strings.TrimSpace(lines[0]) != "sat" {
+		return nil, false
+	}
+	vals := map[string]uint64{}
+	i := 0
+	for _, l := range lines[1:] {
+		l = strings.TrimSpace(l)
+		if l == "" || i >= len(nts) {
+			continue
+		}
+		fs := strings.Fields(strings.TrimRight(l, ")"))
+		if len(fs) == 0 {
+			continue
+		}
+		tok := fs[len(fs)-1]
+		var v uint64
+		switch {
+		case strings.HasPrefix(tok, "#x"):
+			v, _ = strconv.ParseUint(tok[2:], 16, 64)
+		case strings.HasPrefix(tok, "#b"):
+			v, _ = strconv.ParseUint(tok[2:], 2, 64)
+		default:
+			i++
+			continue
+		}
+		vals[nts[i].name] = v
+		i++
+	}
+	return vals, true
+}
 
 func (e *Engine) tryReplay(vdir, prop string, o *Obligation, replayFile string) bool {
-	return false
+	h := replayHarnesses[harnessKey(o.Func)]
+	note := func(k string, v interface{}) {
+		b, err := os.ReadFile(replayFile)
+		if err != nil {
+			return
+		}
+		var m map[string]interface{}
+		if json.Unmarshal(b, &m) != nil {
+			return
+		}
+		m[k] = v
+		nb, _ := json.MarshalIndent(m, "", " ")
+		os.WriteFile(replayFile, nb, 0o644)
+	}
+	if h == nil {
+		note("replay", "no replay harness for this function: the obligation and the solver output above are the report")
+		return false
+	}
+	nts := h.want(e, o)
+	if nts == nil {
+		note("replay", "inputs of the model could not be located")
+		return false
+	}
+	vals, ok := e.evalTerms(o, nts)
+	if !ok {
+		note("replay", "no concrete model of the instantiated query within 30 s")
+		return false
+	}
+	src := h.gen(vals, o)
+	if src == "" {
+		note("replay", "the model needs a buffer longer than the harness materialises; not replayed")
+		return false
+	}
+	dir, err := os.MkdirTemp("", "govc-replay")
+	if err != nil {
+		return false
+	}
+	defer os.RemoveAll(dir)
+	testFile := filepath.Join(dir, "govc_replay_test.go")
+	os.WriteFile(testFile, []byte(src), 0o644)
+	target := filepath.Join(e.repoDir, h.pkgDir, "zz_govc_replay_test.go")
+	ov, _ := json.Marshal(map[string]interface{}{"Replace": map[string]string{target: testFile}})
+	ovFile := filepath.Join(dir, "overlay.json")
+	os.WriteFile(ovFile, ov, 0o644)
+	cmd := exec.Command("go", "test", "-overlay", ovFile, "-vet=off", "-count=1", "-timeout", "60s", "-run", "TestGovcReplay$", "-v", ".")
+	cmd.Dir = filepath.Join(e.repoDir, h.pkgDir)
+	cmd.Env = append(os.Environ(), "GOFLAGS=-mod=mod", "GOPROXY=off")
+	out, _ := cmd.CombinedOutput()
+	confirmed := strings.Contains(string(out), "REPLAY-CONFIRMED")
+	note("replay_test_source", src)
+	outS := string(out)
+	if len(outS) > 4000 {
+		outS = outS[:4000]
+	}
+	note("replay_output", outS)
+	if confirmed {
+		note("replay", "confirmed: the real code misbehaves on the input of the counter-model (see replay_output)")
+	} else {
+		note("replay", "the real code did not misbehave on the candidate input taken from the (instantiated) counter-model")
+	}
+	return confirmed
 }
